@@ -65,6 +65,12 @@ example : subbCo 5#32 5#32 true = (0xFFFFFFFF#32, true) := by decide
 theorem mulLo_meaning (a b : W) : (mulLo a b).toNat = (a.toNat * b.toNat) % 2 ^ 32 := by
   simp [mulLo, BitVec.toNat_mul]
 
+/-- V_XAD_U32 (GFX9, used by the shipped gfx942 kernel rotate_tensor): bitwise xor of the first two
+    operands, then the third added modulo 2^32. -/
+theorem xad_meaning (a b c : W) : (xad a b c).toNat = ((a.toNat ^^^ b.toNat) + c.toNat) % 2 ^ 32 := by
+  simp [xad, BitVec.toNat_add, BitVec.toNat_xor]
+example : xad 0xFFFF0000#32 0x0000FFFF#32 2#32 = 1#32 := by decide
+
 /-- V_MUL_HI_U32: the upper half of the 64-bit product, `⌊a·b / 2^32⌋`. -/
 theorem mulHiU_meaning (a b : W) : (mulHiU a b).toNat = a.toNat * b.toNat / 2 ^ 32 := by
   have ha := a.isLt
